@@ -483,4 +483,16 @@ def gen_cases(rng: random.Random, n: int) -> list:
                   'hs_split': rng.choice([None, None, 'bytes', 'bytes', 'first', 'last']),
                   'hs_gap': rng.choice([0.0, 0.001, 0.05, 0.3])})
         out.append(c)
+    # several uploaders at once (every fresh uploader hands out the same first ticket)
+    for i in range(max(2, n // 5)):
+        N = rng.choice([300, 8193, 20000])
+        second = [{'flen': rng.choice([N, N, N, 300, N + 128]), 'mul': rng.choice([3, 5]), 'add': rng.randint(0, 255)}
+                  for _ in range(rng.choice([1, 1, 2]))]
+        names = ['up'] + [f'up{j + 2}' for j in range(len(second))]
+        slow = rng.choice([None, None] + names)
+        out.append({'kind': 'pair', 'gen': 'pair', 'flen': N, 'mul': 1, 'add': rng.randint(0, 255), 'second': second,
+                    'stagger': rng.choice([0, 0, 0.001, 0.03, 2.0]), 'cuts': rng.choice([[], [], [], [rng.randint(0, N)]]),
+                    'lat_p': rng.choice([0.005, 0.02, 0.5]), 'lat_f': rng.choice([0.005, 0.02]),
+                    'lat_f_by': {slow: rng.choice([0.1, 0.5, 2.0])} if slow else {},
+                    'lim_up': rng.choice([0, 0, 500]), 'lim_down': rng.choice([0, 0, 500])})
     return out
